@@ -34,7 +34,7 @@ var Quirks = []Quirk{
 // the generator steers away from exactly those.
 func OpenQuirks() map[string]bool {
 	out := map[string]bool{}
-	for _, id := range []string{"C02-body-fields-client-sends-whole-payload", "C02-primitive-payload-path-param-named-p", "C02-client-path-slash-unescaped", "C03-response-header-array-not-split"} {
+	for _, id := range []string{"C02-body-fields-client-sends-whole-payload", "C02-primitive-payload-path-param-named-p", "C02-client-path-slash-unescaped", "C03-response-header-array-not-split", "C03-recursive-result-header-attr-lost-in-nested"} {
 		if kf.Open(id) {
 			out[id] = true
 		}
